@@ -1,6 +1,378 @@
-(* Wallet/Proofs.v — wallet lemmas behind Props_C16.v *)
+(* Wallet/Proofs.v — wallet lemmas behind Props_C16.v: the UTXO set, the event list and the
+   balance metrics as functions of the processed best chain. *)
+From Coq Require Import Lia ZifyBool ZifyN.
 From HostdBase Require Import Base.
 From HostdWallet Require Import Model Lib.
+Set Implicit Arguments.
 
-Lemma reset_is_init s : reset s = init.
-Proof. reflexivity. Qed.
+(** * Specification side: what the best chain alone determines *)
+
+(* value of an output towards the confirmed / immature balance at height h, and the part
+   that matures exactly at h *)
+Definition mval (h : N) (e : elem) : N := if (emat e <=? h)%N then eval e else 0%N.
+Definition ival (h : N) (e : elem) : N := if (emat e <=? h)%N then 0%N else eval e.
+Definition qval (h : N) (e : elem) : N := if (emat e =? h)%N then eval e else 0%N.
+Definition msum (h : N) (l : list elem) : N := wsum (mval h) l.
+Definition isum (h : N) (l : list elem) : N := wsum (ival h) l.
+Definition qsum (h : N) (l : list elem) : N := wsum (qval h) l.
+
+(* DELETE / INSERT of a list of rows as pure table functions *)
+Fixpoint del_all (l u : list elem) : list elem :=
+  match l with
+  | [] => u
+  | e :: t => del_all t (match tdel eid (eid e) u with Some u' => u' | None => u end)
+  end.
+Fixpoint ins_all (l u : list elem) : list elem :=
+  match l with [] => u | e :: t => ins_all t (tins eid e u) end.
+Definition ins_events (l : list event) (ev : list event) : list event :=
+  fold_left (fun l e => tins vid e l) l ev.
+
+(* the wallet state derived from a chain (head = tip) *)
+Fixpoint ufold (C : list ablock) : list elem :=
+  match C with
+  | [] => []
+  | b :: C' => ins_all (ab_created b) (del_all (ab_spent b) (ufold C'))
+  end.
+Fixpoint efold (C : list ablock) : list event :=
+  match C with
+  | [] => []
+  | b :: C' => ins_events (ab_events b) (efold C')
+  end.
+
+Definition ids (l : list elem) : list N := map eid l.
+
+(* the consensus discipline a block obeys on top of the chain C' *)
+Definition block_ok (C' : list ablock) (b : ablock) : Prop :=
+  (match C' with [] => True | t :: _ => ih (ab_idx b) = (ih (ab_idx t) + 1)%N end) /\
+  (forall e, In e (ab_spent b) -> In e (ufold C')) /\ NoDup (ids (ab_spent b)) /\
+  (forall e, In e (ab_created b) -> tmem eid (eid e) (ufold C') = false) /\ NoDup (ids (ab_created b)) /\
+  (forall v, In v (ab_events b) -> vix v = ab_idx b /\ tmem vid (vid v) (efold C') = false) /\
+  NoDup (map vid (ab_events b)).
+
+Fixpoint valid_chain (C : list ablock) : Prop :=
+  match C with
+  | [] => True
+  | b :: C' => valid_chain C' /\ block_ok C' b
+  end.
+
+(* a revert update carries the reverted block's own content *)
+Fixpoint wf_reverts (C : list ablock) (rs : list rblock) : Prop :=
+  match rs with
+  | [] => True
+  | r :: t =>
+      match C with
+      | [] => False
+      | b :: C' => rb_idx r = ab_idx b /\ rb_removed r = ab_created b /\ rb_unspent r = ab_spent b /\
+                   (match C' with p :: _ => rb_parent r = ab_idx p | [] => True end) /\
+                   wf_reverts C' t
+      end
+  end.
+
+Definition chain_after (C : list ablock) (rs : list rblock) (bs : list ablock) : list ablock :=
+  rev bs ++ skipn (length rs) C.
+
+Definition wf_batch (C : list ablock) (rs : list rblock) (bs : list ablock) : Prop :=
+  wf_reverts C rs /\ valid_chain (chain_after C rs bs).
+
+(* states reachable from the initial state by well-formed batches and resets, together
+   with the best chain the host has processed (ghost) *)
+Inductive reach : state -> list ablock -> Prop :=
+| reach_init : reach init []
+| reach_batch s C rs bs s' :
+    reach s C -> wf_batch C rs bs -> batch s rs bs = Ok s' -> reach s' (chain_after C rs bs)
+| reach_reset s C : reach s C -> reach (reset s) [].
+
+(** * Per-element sum facts *)
+Lemma mval_shift h e : mval (h + 1) e = (mval h e + qval (h + 1) e)%N.
+Proof. unfold mval, qval. destruct (emat e <=? h + 1)%N eqn:A, (emat e <=? h)%N eqn:B, (emat e =? h + 1)%N eqn:D; lia. Qed.
+Lemma ival_shift h e : ival h e = (ival (h + 1) e + qval (h + 1) e)%N.
+Proof. unfold ival, qval. destruct (emat e <=? h + 1)%N eqn:A, (emat e <=? h)%N eqn:B, (emat e =? h + 1)%N eqn:D; lia. Qed.
+
+Lemma msum_shift h l : msum (h + 1) l = (msum h l + qsum (h + 1) l)%N.
+Proof. unfold msum, qsum. induction l as [|e t IH]; cbn [wsum]; [reflexivity|]. rewrite IH, mval_shift. lia. Qed.
+Lemma isum_shift h l : isum h l = (isum (h + 1) l + qsum (h + 1) l)%N.
+Proof. unfold isum, qsum. induction l as [|e t IH]; cbn [wsum]; [reflexivity|]. rewrite IH, (ival_shift h e). lia. Qed.
+
+Lemma mval_ival h e : (mval h e + ival h e)%N = eval e.
+Proof. unfold mval, ival. destruct (emat e <=? h)%N; lia. Qed.
+
+(** * The code's helpers against the table functions *)
+Lemma cadd_ok a b c : cadd a b = Ok c -> c = (a + b)%N.
+Proof. unfold cadd. destruct (a + b <? two128)%N; [intros [= <-]; reflexivity|discriminate]. Qed.
+
+Lemma matured_sum_spec u h : forall acc m, matured_sum u h acc = Ok m -> m = (acc + qsum h u)%N.
+Proof.
+  unfold qsum. induction u as [|e t IH]; intros acc m; cbn [matured_sum wsum].
+  - intros [= <-]. lia.
+  - unfold qval at 1. destruct (emat e =? h)%N.
+    + destruct (cadd acc (eval e)) as [a| |] eqn:E; cbn [bind]; try discriminate.
+      apply cadd_ok in E. intros H. apply IH in H. lia.
+    + intros H. apply IH in H. lia.
+Qed.
+
+Lemma delete_elems_spec h : forall l u mo io u' mo' io',
+  ssorted eid u -> (forall e, In e l -> In e u) -> NoDup (ids l) ->
+  delete_elems u l h mo io = Ok (u', mo', io') ->
+  u' = del_all l u /\ ssorted eid u' /\
+  (forall y, In y u' <-> In y u /\ ~ In (eid y) (ids l)) /\
+  (msum h u = msum h u' + wsum (mval h) l)%N /\
+  (isum h u = isum h u' + wsum (ival h) l)%N /\
+  (mo' = mo + wsum (mval h) l)%N /\ (io' = io + wsum (ival h) l)%N.
+Proof.
+  induction l as [|e t IH]; intros u mo io u' mo' io' S Hin ND; cbn [delete_elems del_all wsum ids map].
+  - intros [= <- <- <-]. repeat split; auto; try lia; try tauto.
+  - destruct (tdel eid (eid e) u) as [u1|] eqn:Ed; [|discriminate].
+    destruct (tdel_spec eid (eid e) u u1 S Ed) as [S1 [I1 _]].
+    assert (In e u) as He by (apply Hin; left; reflexivity).
+    pose proof (wsum_tdel (mval h) eid e u u1 S He Ed) as Hm.
+    pose proof (wsum_tdel (ival h) eid e u u1 S He Ed) as Hi.
+    inversion ND as [|? ? Hnot ND']; subst.
+    assert (forall e', In e' t -> In e' u1) as Hin1.
+    { intros e' He'. apply I1. split; [apply Hin; right; exact He'|].
+      intros E. apply Hnot. rewrite <- E. apply in_map. exact He'. }
+    assert (forall u2, (forall y, In y u2 <-> In y u1 /\ ~ In (eid y) (ids t)) ->
+            forall y, In y u2 <-> In y u /\ ~ In (eid y) (eid e :: ids t)) as Hmem.
+    { intros u2 I' y. rewrite I', I1. cbn [In]. intuition. }
+    fold (msum h u) in Hm. fold (isum h u) in Hi. fold (msum h u1) in Hm. fold (isum h u1) in Hi.
+    destruct (emat e <=? h)%N eqn:Em.
+    + assert (mval h e = eval e /\ ival h e = 0%N) as [Hv1 Hv2] by (unfold mval, ival; rewrite Em; auto).
+      destruct (cadd mo (eval e)) as [a| |] eqn:E; cbn [bind]; try discriminate.
+      apply cadd_ok in E. intros H. destruct (IH _ _ _ _ _ _ S1 Hin1 ND' H) as [E1 [S' [I' [M [I2 [M2 I3]]]]]].
+      split; [exact E1|]. split; [exact S'|]. split; [exact (Hmem _ I')|]. lia.
+    + assert (mval h e = 0%N /\ ival h e = eval e) as [Hv1 Hv2] by (unfold mval, ival; rewrite Em; auto).
+      destruct (cadd io (eval e)) as [a| |] eqn:E; cbn [bind]; try discriminate.
+      apply cadd_ok in E. intros H. destruct (IH _ _ _ _ _ _ S1 Hin1 ND' H) as [E1 [S' [I' [M [I2 [M2 I3]]]]]].
+      split; [exact E1|]. split; [exact S'|]. split; [exact (Hmem _ I')|]. lia.
+Qed.
+
+Lemma create_elems_spec h : forall l u mi ii u' mi' ii',
+  ssorted eid u -> (forall e, In e l -> tmem eid (eid e) u = false) -> NoDup (ids l) ->
+  create_elems u l h mi ii = Ok (u', mi', ii') ->
+  u' = ins_all l u /\ ssorted eid u' /\
+  (forall y, In y u' <-> In y u \/ In y l) /\
+  (msum h u' = msum h u + wsum (mval h) l)%N /\
+  (isum h u' = isum h u + wsum (ival h) l)%N /\
+  (mi' = mi + wsum (mval h) l)%N /\ (ii' = ii + wsum (ival h) l)%N.
+Proof.
+  induction l as [|e t IH]; intros u mi ii u' mi' ii' S Hf ND; cbn [create_elems ins_all wsum ids map].
+  - intros [= <- <- <-]. repeat split; auto; try lia; cbn; tauto.
+  - destruct (tins_spec eid e u S) as [S1 I1].
+    assert (tmem eid (eid e) u = false) as Hfe by (apply Hf; left; reflexivity).
+    pose proof (wsum_tins (mval h) eid e u S Hfe) as Hm.
+    pose proof (wsum_tins (ival h) eid e u S Hfe) as Hi.
+    fold (msum h u) in Hm. fold (isum h u) in Hi.
+    fold (msum h (tins eid e u)) in Hm. fold (isum h (tins eid e u)) in Hi.
+    inversion ND as [|? ? Hnot ND']; subst.
+    assert (forall e', In e' t -> tmem eid (eid e') (tins eid e u) = false) as Hf1.
+    { intros e' He'. apply tmem_false_In. intros y Hy E. apply I1 in Hy.
+      destruct Hy as [Hy|[-> _]].
+      - assert (tmem eid (eid e') u = false) as F by (apply Hf; right; exact He').
+        apply (proj1 (tmem_false_In eid (eid e') u) F y Hy E).
+      - apply Hnot. rewrite E. apply in_map. exact He'. }
+    assert (forall u2, (forall y, In y u2 <-> In y (tins eid e u) \/ In y t) ->
+            forall y, In y u2 <-> In y u \/ In y (e :: t)) as Hmem.
+    { intros u2 I' y. rewrite I', I1, Hfe. cbn [In]. intuition. }
+    destruct (emat e <=? h)%N eqn:Em.
+    + assert (mval h e = eval e /\ ival h e = 0%N) as [Hv1 Hv2] by (unfold mval, ival; rewrite Em; auto).
+      destruct (cadd mi (eval e)) as [a| |] eqn:E; cbn [bind]; try discriminate.
+      apply cadd_ok in E. intros H. destruct (IH _ _ _ _ _ _ S1 Hf1 ND' H) as [E1 [S' [I' [M [I2 [M2 I3]]]]]].
+      split; [exact E1|]. split; [exact S'|]. split; [exact (Hmem _ I')|]. lia.
+    + assert (mval h e = 0%N /\ ival h e = eval e) as [Hv1 Hv2] by (unfold mval, ival; rewrite Em; auto).
+      destruct (cadd ii (eval e)) as [a| |] eqn:E; cbn [bind]; try discriminate.
+      apply cadd_ok in E. intros H. destruct (IH _ _ _ _ _ _ S1 Hf1 ND' H) as [E1 [S' [I' [M [I2 [M2 I3]]]]]].
+      split; [exact E1|]. split; [exact S'|]. split; [exact (Hmem _ I')|]. lia.
+Qed.
+
+(* the pure table functions *)
+Lemma del_all_spec : forall l u, ssorted eid u ->
+  ssorted eid (del_all l u) /\ (forall y, In y (del_all l u) <-> In y u /\ ~ In (eid y) (ids l)).
+Proof.
+  induction l as [|e t IH]; intros u S; cbn [del_all ids map].
+  - split; [exact S|]. intros y. cbn. tauto.
+  - destruct (tdel eid (eid e) u) as [u1|] eqn:Ed.
+    + destruct (tdel_spec eid (eid e) u u1 S Ed) as [S1 [I1 _]].
+      destruct (IH u1 S1) as [S2 I2]. split; [exact S2|].
+      intros y. rewrite I2, I1. cbn [In]. intuition.
+    + destruct (IH u S) as [S2 I2]. split; [exact S2|].
+      intros y. rewrite I2. cbn [In]. apply tdel_none in Ed.
+      pose proof (proj1 (tmem_false_In eid (eid e) u) Ed) as F. intuition. eapply F; eauto.
+Qed.
+
+Lemma ins_all_spec : forall l u, ssorted eid u ->
+  (forall e, In e l -> tmem eid (eid e) u = false) -> NoDup (ids l) ->
+  ssorted eid (ins_all l u) /\ (forall y, In y (ins_all l u) <-> In y u \/ In y l).
+Proof.
+  induction l as [|e t IH]; intros u S Hf ND; cbn [ins_all].
+  - split; [exact S|]. intros y. cbn. tauto.
+  - destruct (tins_spec eid e u S) as [S1 I1].
+    assert (tmem eid (eid e) u = false) as Hfe by (apply Hf; left; reflexivity).
+    inversion ND as [|? ? Hnot ND']; subst.
+    assert (forall e', In e' t -> tmem eid (eid e') (tins eid e u) = false) as Hf1.
+    { intros e' He'. apply tmem_false_In. intros y Hy E. apply I1 in Hy.
+      destruct Hy as [Hy|[-> _]].
+      - assert (tmem eid (eid e') u = false) as F by (apply Hf; right; exact He').
+        apply (proj1 (tmem_false_In eid (eid e') u) F y Hy E).
+      - apply Hnot. rewrite E. apply in_map. exact He'. }
+    destruct (IH _ S1 Hf1 ND') as [S2 I2]. split; [exact S2|].
+    intros y. rewrite I2, I1, Hfe. cbn [In]. intuition.
+Qed.
+
+Lemma ins_all_sorted : forall l u, ssorted eid u -> ssorted eid (ins_all l u).
+Proof.
+  induction l as [|e t IH]; intros u S; cbn [ins_all]; [exact S|].
+  apply IH. apply (tins_spec eid e u S).
+Qed.
+
+Lemma ufold_sorted C : ssorted eid (ufold C).
+Proof.
+  induction C as [|b C IH]; cbn [ufold]; [exact I|].
+  apply ins_all_sorted. apply (del_all_spec (ab_spent b) (ufold C) IH).
+Qed.
+
+Lemma ins_events_sorted : forall l ev, ssorted vid ev -> ssorted vid (ins_events l ev).
+Proof.
+  unfold ins_events. induction l as [|e t IH]; intros ev S; cbn [fold_left]; [exact S|].
+  apply IH. apply (tins_spec vid e ev S).
+Qed.
+
+Lemma ins_events_spec : forall l ev, ssorted vid ev ->
+  (forall e, In e l -> tmem vid (vid e) ev = false) -> NoDup (map vid l) ->
+  forall y, In y (ins_events l ev) <-> In y ev \/ In y l.
+Proof.
+  unfold ins_events. induction l as [|e t IH]; intros ev S Hf ND y; cbn [fold_left].
+  - cbn. tauto.
+  - destruct (tins_spec vid e ev S) as [S1 I1].
+    assert (tmem vid (vid e) ev = false) as Hfe by (apply Hf; left; reflexivity).
+    inversion ND as [|? ? Hnot ND']; subst.
+    assert (forall e', In e' t -> tmem vid (vid e') (tins vid e ev) = false) as Hf1.
+    { intros e' He'. apply tmem_false_In. intros z Hz E. apply I1 in Hz.
+      destruct Hz as [Hz|[-> _]].
+      - assert (tmem vid (vid e') ev = false) as F by (apply Hf; right; exact He').
+        apply (proj1 (tmem_false_In vid (vid e') ev) F z Hz E).
+      - apply Hnot. rewrite E. apply in_map. exact He'. }
+    rewrite (IH _ S1 Hf1 ND' y), I1, Hfe. cbn [In]. intuition.
+Qed.
+
+Lemma efold_sorted C : ssorted vid (efold C).
+Proof.
+  induction C as [|b C IH]; cbn [efold]; [exact I|]. apply ins_events_sorted. exact IH.
+Qed.
+
+(** * The balance metrics *)
+Lemma net_spec a b : forall d neg, net a b = (d, neg) ->
+  (neg = false /\ (a = b + d)%N) \/ (neg = true /\ (b = a + d)%N /\ (0 < d)%N).
+Proof.
+  unfold net. intros d neg. destruct (b <? a)%N eqn:E1; [intros [= <- <-]; left; split; [auto|lia]|].
+  destruct (a <? b)%N eqn:E2; intros [= <- <-]; [right; repeat split; lia|left; split; [auto|lia]].
+Qed.
+
+(* if the current value plus inflow equals target plus outflow, the new current value is the target *)
+Lemma update_balance_spec bal imm mi mo ii io ts bal' imm' B I :
+  update_balance bal imm mi mo ii io ts = Ok (bal', imm') ->
+  (scur bal + mi = B + mo)%N -> (scur imm + ii = I + io)%N ->
+  scur bal' = B /\ scur imm' = I.
+Proof.
+  unfold update_balance. destruct (net mi mo) as [md mneg] eqn:N1. destruct (net ii io) as [id ineg] eqn:N2.
+  apply net_spec in N1. apply net_spec in N2. intros H HB HI.
+  destruct ((md =? 0) && (id =? 0))%N eqn:Z.
+  - injection H as <- <-. split; lia.
+  - set (b := N.max (bucket ts) (N.max (smaxkey bal) (smaxkey imm))) in H.
+    assert (smaxkey bal <= b)%N as Hb1 by (unfold b; lia).
+    assert (smaxkey imm <= b)%N as Hb2 by (unfold b; lia).
+    destruct (if (md =? 0)%N then Ok bal else sincr bal b md mneg) as [bal1| |] eqn:E1; cbn [bind] in H; try discriminate.
+    destruct (if (id =? 0)%N then Ok imm else sincr imm b id ineg) as [imm1| |] eqn:E2; cbn [bind] in H; try discriminate.
+    injection H as <- <-. split.
+    + destruct (md =? 0)%N eqn:Zm.
+      * injection E1 as <-. lia.
+      * pose proof (sincr_spec bal b md mneg bal1 Hb1 E1) as [_ [_ Hs]]. destruct mneg; lia.
+    + destruct (id =? 0)%N eqn:Zi.
+      * injection E2 as <-. lia.
+      * pose proof (sincr_spec imm b id ineg imm1 Hb2 E2) as [_ [_ Hs]]. destruct ineg; lia.
+Qed.
+
+Arguments update_balance_spec : clear implicits.
+
+(* the wallet part of the state as determined by a chain whose tip has height h *)
+Definition bal_at (s : state) (h : N) : Prop :=
+  scur (mbal s) = msum h (utxos s) /\ scur (mimm s) = isum h (utxos s).
+(* ... and just below height h: what matures at h still counts as immature *)
+Definition bal_below (s : state) (h : N) : Prop :=
+  (scur (mbal s) + qsum h (utxos s) = msum h (utxos s))%N /\
+  scur (mimm s) = (isum h (utxos s) + qsum h (utxos s))%N.
+
+Lemma bal_below_of_at s h : bal_at s h -> bal_below s (h + 1).
+Proof.
+  unfold bal_at, bal_below. intros [A B]. rewrite A, B, msum_shift, (isum_shift h). lia.
+Qed.
+Lemma bal_at_of_below s h : bal_below s (h + 1) -> bal_at s h.
+Proof.
+  unfold bal_at, bal_below. rewrite msum_shift, (isum_shift h). lia.
+Qed.
+
+Lemma wallet_apply_spec s b s' :
+  ssorted eid (utxos s) ->
+  (forall e, In e (ab_spent b) -> In e (utxos s)) -> NoDup (ids (ab_spent b)) ->
+  (forall e, In e (ab_created b) -> tmem eid (eid e) (utxos s) = false) -> NoDup (ids (ab_created b)) ->
+  bal_below s (ih (ab_idx b)) ->
+  wallet_apply s b = Ok s' ->
+  utxos s' = ins_all (ab_created b) (del_all (ab_spent b) (utxos s)) /\
+  events s' = ins_events (ab_events b) (events s) /\
+  bal_at s' (ih (ab_idx b)) /\
+  a_idx s' = a_idx s /\ a_addr s' = a_addr s /\ a_hash s' = a_hash s /\ tip s' = tip s.
+Proof.
+  intros S Hsp NDs Hcr NDc [Hb Hi]. unfold wallet_apply. set (h := ih (ab_idx b)) in *.
+  destruct (matured_sum (utxos s) h 0) as [m| |] eqn:Em; cbn [bind]; try discriminate.
+  apply matured_sum_spec in Em.
+  destruct (delete_elems (utxos s) (ab_spent b) h 0 0) as [[[u1 mo] io]| |] eqn:Ed; cbn [bind]; try discriminate.
+  destruct (delete_elems_spec h _ _ _ _ S Hsp NDs Ed) as [E1 [S1 [I1 [M1 [J1 [Mo Io]]]]]].
+  assert (forall e, In e (ab_created b) -> tmem eid (eid e) u1 = false) as Hcr1.
+  { intros e He. apply tmem_false_In. intros y Hy E. apply I1 in Hy. destruct Hy as [Hy _].
+    apply (proj1 (tmem_false_In eid (eid e) (utxos s)) (Hcr e He) y Hy E). }
+  destruct (create_elems u1 (ab_created b) h 0 0) as [[[u2 mi] ii]| |] eqn:Ec; cbn [bind]; try discriminate.
+  destruct (create_elems_spec h _ _ _ _ S1 Hcr1 NDc Ec) as [E2 [S2 [I2 [M2 [J2 [Mi Ii]]]]]].
+  destruct (cadd mi m) as [mi'| |] eqn:A1; cbn [bind]; try discriminate. apply cadd_ok in A1.
+  destruct (cadd io m) as [io'| |] eqn:A2; cbn [bind]; try discriminate. apply cadd_ok in A2.
+  destruct (update_balance (mbal s) (mimm s) mi' mo ii io' (ab_ts b)) as [[bal imm]| |] eqn:Eu; cbn [bind]; try discriminate.
+  intros [= <-]. unfold bal_at. cbn. subst u2 u1. repeat split; auto.
+  - eapply (update_balance_spec _ _ _ _ _ _ _ _ _ (msum h (ins_all (ab_created b) (del_all (ab_spent b) (utxos s))))
+              (isum h (ins_all (ab_created b) (del_all (ab_spent b) (utxos s)))) Eu); lia.
+  - eapply (update_balance_spec _ _ _ _ _ _ _ _ _ (msum h (ins_all (ab_created b) (del_all (ab_spent b) (utxos s))))
+              (isum h (ins_all (ab_created b) (del_all (ab_spent b) (utxos s)))) Eu); lia.
+Qed.
+
+Lemma wallet_revert_spec s r s' :
+  ssorted eid (utxos s) ->
+  (forall e, In e (rb_removed r) -> In e (utxos s)) -> NoDup (ids (rb_removed r)) ->
+  (forall e, In e (rb_unspent r) -> tmem eid (eid e) (del_all (rb_removed r) (utxos s)) = false) ->
+  NoDup (ids (rb_unspent r)) ->
+  bal_at s (ih (rb_idx r)) ->
+  wallet_revert s r = Ok s' ->
+  utxos s' = ins_all (rb_unspent r) (del_all (rb_removed r) (utxos s)) /\
+  events s' = filter (fun e => negb (idx_eqb (vix e) (rb_idx r))) (events s) /\
+  bal_below s' (ih (rb_idx r)) /\
+  a_idx s' = a_idx s /\ a_addr s' = a_addr s /\ a_hash s' = a_hash s /\ tip s' = tip s.
+Proof.
+  intros S Hrm NDr Hun NDu [Hb Hi]. unfold wallet_revert. set (h := ih (rb_idx r)) in *.
+  destruct (delete_elems (utxos s) (rb_removed r) h 0 0) as [[[u1 mo] io]| |] eqn:Ed; cbn [bind]; try discriminate.
+  destruct (delete_elems_spec h _ _ _ _ S Hrm NDr Ed) as [E1 [S1 [I1 [M1 [J1 [Mo Io]]]]]].
+  rewrite <- E1 in Hun.
+  destruct (create_elems u1 (rb_unspent r) h 0 0) as [[[u2 mi] ii]| |] eqn:Ec; cbn [bind]; try discriminate.
+  destruct (create_elems_spec h _ _ _ _ S1 Hun NDu Ec) as [E2 [S2 [I2 [M2 [J2 [Mi Ii]]]]]].
+  destruct (matured_sum u2 h 0) as [m| |] eqn:Em; cbn [bind]; try discriminate.
+  apply matured_sum_spec in Em.
+  destruct (cadd mo m) as [mo'| |] eqn:A1; cbn [bind]; try discriminate. apply cadd_ok in A1.
+  destruct (cadd ii m) as [ii'| |] eqn:A2; cbn [bind]; try discriminate. apply cadd_ok in A2.
+  destruct (update_balance (mbal s) (mimm s) mi mo' ii' io (rb_ts r)) as [[bal imm]| |] eqn:Eu; cbn [bind]; try discriminate.
+  intros [= <-]. unfold bal_below. cbn. rewrite <- E1, <- E2. repeat split; auto.
+  - (* mature: the new current value B satisfies B + qsum = msum h u2 *)
+    assert (qsum h u2 <= msum h u2)%N as Hle.
+    { clear. unfold qsum, msum. induction u2 as [|e t IH]; cbn [wsum]; [lia|].
+      unfold qval at 1, mval at 1. destruct (emat e =? h)%N eqn:A, (emat e <=? h)%N eqn:B; lia. }
+    pose proof (update_balance_spec _ _ _ _ _ _ _ _ _ (msum h u2 - qsum h u2)%N
+              (isum h u2 + qsum h u2)%N Eu) as [HB _]; [lia|lia|]. lia.
+  - assert (qsum h u2 <= msum h u2)%N as Hle.
+    { clear. unfold qsum, msum. induction u2 as [|e t IH]; cbn [wsum]; [lia|].
+      unfold qval at 1, mval at 1. destruct (emat e =? h)%N eqn:A, (emat e <=? h)%N eqn:B; lia. }
+    pose proof (update_balance_spec _ _ _ _ _ _ _ _ _ (msum h u2 - qsum h u2)%N
+              (isum h u2 + qsum h u2)%N Eu) as [_ HI]; [lia|lia|]. lia.
+Qed.
